@@ -843,6 +843,7 @@ package quickfix
 //@   trusted
 //@   requires sessfull(session)
 //@   ensures sessfull(session)
+//@   ensures session.notifyOnInSessionTime != nil ==> !closed(session.notifyOnInSessionTime) && allocated(session.notifyOnInSessionTime)
 
 // SendAppMessages: the queue goes to the wire only in a logged-on state; otherwise it is dropped from the wire queue
 //@ func (sm *stateMachine) SendAppMessages [C02,C08]
@@ -929,3 +930,7 @@ package quickfix
 //@   requires @bound session.store.#T < MaxInt64
 //@   requires @msg msgok(m)
 //@   requires @chan session.notifyOnInSessionTime != nil ==> !closed(session.notifyOnInSessionTime) && allocated(session.notifyOnInSessionTime)
+
+// Timeout dispatch: the state's Timeout decides the next state; leaving a connected state goes through setState
+//@ func (sm *stateMachine) Timeout [C08,C20]
+//@   requires @sess sessfull(session) && sm == &session.stateMachine
